@@ -257,7 +257,7 @@ def run(tier):
     global kc_global
     ck = Check("C11", tier)
     ck.assumptions += ASSUMPTIONS
-    br = common.build()
+    br = common.build("C11")
     ck.proofs(br)
     if not br.ok:
         return ck.finish()
